@@ -216,6 +216,9 @@ impl FaultScenario {
             ));
             return out;
         }
+        // C02 after a faulted history: flush_meta returned Ok and nothing was issued since, so a
+        // new device on the same bytes has to read what the old one reads
+        let live = w.dev.as_ref().map(|d| crate::lin::read_all(d, vsize as usize, 1usize << self.cfg.bs_bits));
         let rep = check_image(&w.sim.borrow().files[0]);
         if let Some((c, d)) = rep.first_problem(false) {
             out.push(self.viol(format!("healed-image-unsafe:{}", c), format!("after healing and flush_meta the file is unsafe: {}", d), hist, plan));
@@ -225,6 +228,24 @@ impl FaultScenario {
         match open_chain(&sim2, 0, &self.cfg, false) {
             Ok(d2) => {
                 let got = crate::lin::read_all(&d2, vsize as usize, 1usize << self.cfg.bs_bits);
+                if let Some(live) = &live {
+                    if let Some(b) = (0..nblk).find(|b| live[*b] != got[*b]) {
+                        let failed_kinds: std::collections::BTreeSet<&str> = hist.iter().map(|o| op_kind(o)).collect();
+                        let mut v = self.viol(
+                            format!("reopen-differs-after-faulted-history:{}:live-{}-reopened-{}", failed_kinds.into_iter().collect::<Vec<_>>().join("+"), classify_word(live[b]), classify_word(got[b])),
+                            format!(
+                                "after the backend healed and flush_meta returned Ok, guest block {:#x} reads {} on the old device but {} on a device opened on the same file",
+                                b * BLK,
+                                describe_word(live[b]),
+                                describe_word(got[b])
+                            ),
+                            hist,
+                            plan,
+                        );
+                        v.prop = "C02".into();
+                        out.push(v);
+                    }
+                }
                 for b in 0..nblk {
                     let ok = match got[b] {
                         Some(v) => allowed[b].contains(&v),
